@@ -18,7 +18,7 @@ import itertools
 from vlib import core
 from vlib.replay import generic_replay
 
-LEVEL = 'proof'
+LEVEL = 'exploration'
 
 
 def _classes():
